@@ -1032,6 +1032,63 @@ def judge_pair(ctx, table, kind, cspec, sspec, cred, alpn):
     return "ok"
 
 
+def psk_verdict(table, spec, r):
+    """(kind of failure or None, text) for one PSK / ticket pair result"""
+    from . import c19_pairs as P
+    if spec["kind"] == "external":
+        must, used, why = P.psk_expectation(table, r["cset"], r["sset"], spec["cred"], spec["psk"].get("hash") or "sha256",
+                                            spec["client"]["psk_modes"], spec["server"]["psk_modes"])
+    else:
+        if r["outcome"] in ("first-connection-failed", "no-ticket-received"):
+            ok, why, v = P.compatible(table, r["cset"], r["sset"], spec["cred"])
+            if ok is True and v == (3, 4):
+                return "first-connection", "the ticket-issuing connection: " + r["outcome"]
+            return None, "first connection not expected to give a ticket"
+        ok, why, v = P.compatible(table, r["cset2"], r["sset"], spec["cred"])
+        must, used = (ok, True) if (ok is True and v == (3, 4)) else (ok if ok is not True else None, None)
+    if must is not True:
+        return None, "not judged (%s)" % why
+    hrr = "hrr" if r.get("hrr") else "no-hrr"
+    if r["outcome"] != "complete":
+        exc = r.get("server_exc") if r.get("server_exc") not in (None, "none") else r.get("client_exc")
+        return ("fails:%s-%s-%s" % (spec["kind"], hrr, str(exc).replace(":", "-")),
+                "settings sharing %s do not complete a TLS 1.3 handshake (%s; client: %s, server: %s)"
+                % ("an external PSK" if spec["kind"] == "external" else "a session ticket", hrr, r.get("client_exc"),
+                   r.get("server_exc")))
+    if used is True and not r.get("psk_selected"):
+        return "psk-not-used:" + spec["kind"], "handshake completed but the server did not select the shared PSK (%s)" % hrr
+    if used is True and r.get("server_sent_certificate"):
+        return "psk-not-used:" + spec["kind"], "server selected the PSK and still sent a certificate"
+    if used is False and r.get("psk_selected"):
+        return "psk-used-with-wrong-hash", "server selected a PSK whose hash differs from the suite's PRF hash"
+    if spec["kind"] == "ticket" and not (r.get("client_resumed") and r.get("server_resumed")):
+        return "psk-not-used:ticket-resumed-flag", "ticket accepted but resumed is client=%s server=%s" % (
+            r.get("client_resumed"), r.get("server_resumed"))
+    return None, "ok"
+
+
+def judge_psk(ctx, table, label, spec):
+    from . import c19_pairs as P
+    r = P.run_psk_pair(spec)
+    if r["outcome"] == "invalid":
+        ctx.count("pair:invalid:psk")
+        return
+    ctx.case(key=("psk", repr(sorted(spec.items(), key=repr))),
+             sample={"kind": label, "spec": spec, "outcome": r["outcome"], "hrr": r.get("hrr"),
+                     "psk_selected": r.get("psk_selected")} if ctx.evaluations % 701 == 0 else None)
+    ctx.count("pair-kind:" + label)
+    ctx.count("pair-cred:" + spec["cred"])
+    bad, text = psk_verdict(table, spec, r)
+    if text.startswith("not judged") or text.startswith("first connection not"):
+        ctx.count("info:pair-not-judged:psk")
+    if bad is None:
+        return
+    detail = dict(spec, stage="psk-pair", label=label)
+    detail["observed"] = {k: v for k, v in r.items() if k not in ("cset", "sset", "cset2")}
+    key = ("c19:compatible-pair-fails:tls13-psk-" + bad[len("fails:"):]) if bad.startswith("fails:") else "c19:" + bad
+    ctx.violation(key, text, detail)
+
+
 def pairs_phase(ctx):
     """second half of C19: compatible validated settings connect (live lab, real environment)"""
     from . import c19_pairs as P
@@ -1042,6 +1099,9 @@ def pairs_phase(ctx):
     for _ in range(ctx.pick(1500, 22000)):
         kind, c, s, cred, alpn = P.gen_pair(ctx.rng)
         judge_pair(ctx, table, kind, c, s, cred, alpn)
+    # PSK / ticket dimension: shared external PSK or resumption ticket x share-at-once / HelloRetryRequest
+    for label, spec in P.psk_pairs(ctx.rng, ctx.pick(250, 5000)):
+        judge_psk(ctx, table, label, spec)
 
 
 def run(ctx):
@@ -1055,7 +1115,9 @@ def run(ctx):
                 "Second half: pairs of validated settings x server credential kind in the live lab — systematic pairs that agree in "
                 "exactly one version / group (ffdhe-only, x25519-only, with the share sent at once, another share first, or none) / "
                 "cipher / MAC / key exchange / signature scheme, EMS/EtM/record_size_limit/ALPN combinations, and random pairs with "
-                "one-common / disjoint / random sub-lists per dimension; expectation = harness/props/c19_pairs.py:compatible")
+                "one-common / disjoint / random sub-lists per dimension; pairs sharing an external PSK (both hashes, psk_dhe_ke / psk_ke, "
+                "decoy identities) and clients resuming a TLS 1.3 ticket, each with the share sent at once / no share / another share "
+                "(HelloRetryRequest) over the group layouts; expectation = harness/props/c19_pairs.py:compatible, psk_expectation")
     ctx.assumptions = ["copy.deepcopy + structural comparison sees every change of the receiver (opaque key/cert objects by type only)",
                        "patching cryptomath.m2cryptoLoaded / pycryptoLoaded / cipherfactory.tripleDESPresent and reloading "
                        "handshakesettings with patched availability flags is what another installation would look like",
@@ -1159,6 +1221,19 @@ def run(ctx):
 
 def replay(ctx, rep):
     inp = rep["input"]
+    if inp.get("stage") == "psk-pair":
+        from . import c19_pairs as P
+        table = P.suite_table()
+        spec = {k: v for k, v in inp.items() if k in ("kind", "client", "client2", "server", "cred", "psk", "client_decoys",
+                                                      "shared_position", "server_decoys", "ticket_count")}
+        r = P.run_psk_pair(spec)
+        print("spec:", spec)
+        print("observed:", {k: v for k, v in r.items() if k not in ("cset", "sset", "cset2")})
+        if r["outcome"] == "invalid":
+            return False
+        bad, text = psk_verdict(table, spec, r)
+        print("verdict:", bad, "-", text)
+        return bad is not None
     if inp.get("stage") == "pair":
         from . import c19_pairs as P
         table = P.suite_table()
